@@ -281,8 +281,19 @@ class RefDevice:
             pre = bytes.fromhex(d["garbage_prefix"])
             self._fire("garbage_prefix")
         total = tail + pre + bytes(pkt)
-        conn.send(total, lat=lat, cuts=self._cuts(d, len(total)))
-        hs_ev["end"] = len(conn.tx_stream)       # stream offset at which the reply is complete
+        push = b""
+        if d.get("post_push") and genuine:
+            # a status report under the new session key follows the reply at once
+            push = self.wrap(conn, self.state_frame(ftype=acmodel.FT_REPORT), st["keys"][-1])
+            self._fire("status_push_right_behind_handshake_reply")
+        if push and d["post_push"] == "same":
+            conn.send(total + push, lat=lat)
+            hs_ev["end"] = len(conn.tx_stream) - len(push)
+        else:
+            conn.send(total, lat=lat, cuts=self._cuts(d, len(total)))
+            hs_ev["end"] = len(conn.tx_stream)       # stream offset at which the reply is complete
+            if push:
+                conn.send(push, lat=lat)
         if not genuine:
             conn.hostile_until = max(conn.hostile_until, conn._last_sched)
         if d.get("dup"):
@@ -593,6 +604,13 @@ class RefDevice:
                 self.violations.append(("control", str(e), body))
                 return []
             self.controls.append(st)
+            if getattr(self, "ack_mode", "new") == "old":
+                # a unit that acknowledges with the state it had before executing the command (slow wake-up)
+                ack = self.state_frame(ftype=FT_CONTROL)
+                for f in acmodel.STATE_FIELDS:
+                    self.state[f] = st[f]
+                self._fire("control_acknowledged_with_previous_state")
+                return [ack]
             for f in acmodel.STATE_FIELDS:
                 self.state[f] = st[f]
             return [self.state_frame(ftype=FT_CONTROL)]
@@ -641,6 +659,11 @@ class RefDevice:
             self.prop_sets.append((len(self.log), [(p, bytes(v)) for p, v in recs]))
             items = []
             for pid, val in recs:
+                if pid in getattr(self, "nak_props", ()):
+                    # the unit refuses this write: execution-error result, value not stored
+                    items.append((pid, 0x11, bytes(val)))
+                    self._fire("property_write_refused")
+                    continue
                 res, rv = acmodel.apply_prop_set(pid, val, self.props, self.legacy_exclusive)
                 items.append((pid, res, rv))
             return [self.make_frame(acmodel.build_prop_reply(0xB0, items), FT_CONTROL)]
